@@ -329,6 +329,14 @@ def orc_c11(case, obs):
     for (t, e, _), ob in zip(enc_ops(case, obs), obs):
         if e is None or e.skip:
             continue
+        if t[0] == "EFRAG":
+            # the caller's own context: judged like a continuation call when it lies within the PDU
+            pdu, ctx = tok_bytes(t[1]), (int(t[2]), int(t[3]), int(t[4]))
+            if ctx[2] > len(pdu):
+                ctx = None
+                continue
+            calls_since_first, rem_at_first, all_big = 0, len(pdu) - ctx[2], True
+            t = ["EFRAGC", t[5], t[6]]
         if e.panic:
             if t[0] == "EFRAGC" and ctx is not None and pdu is not None and len(pdu) <= 65535:
                 # neither a packet nor a rejection: the caller holding a valid context gets no answer at all
@@ -938,7 +946,10 @@ def gen_c01(rng, t):
             c.add("DPROV %d" % (max(maxpdu, pl) + 3 * k + rng.range(0, 2)))
         if i % 30 == 11:
             c.add("DPROV %d" % rng.choice([65536, 65537, 65536 + pl, 131072, 70000]))      # storages of 65536 bytes and more (taken first)
-        pre = rng.below(5)
+        pre = rng.below(6)
+        if pre == 5 and lab != "B":
+            # a refused call with the same label comes first (forbidden protocol type, or no room for any packet)
+            c.add(rng.choice(["ENCAP - 0 %d %s 40 1" % (rng.choice(PTYPES_BAD), lab), "ENCAP g9.1 0 2048 %s %d 1" % (lab, rng.range(0, 6))]))
         if pre == 1 and lab != "B":
             c.add("ENCAP - 0 2048 %s 40 1" % lab, "DECAPN -", "DPROVBACK")     # same label: re-use next
         elif pre == 4:
@@ -975,7 +986,7 @@ def orc_c01(case, obs):
         wire_ll = LT_LEN[(e.pkt[0] >> 4) & 3]
     else:
         # would a re-use substitution apply? (previous packet of the case carried the same label, re-use enabled)
-        prev = [o for o in case.ops[:i] if o.startswith("ENCAP") or o == "ERESET"]
+        prev = [o for o, b in zip(case.ops[:i], obs[:i]) if (o.startswith("ENCAP") and EncObs(b).ok) or o == "ERESET"]     # refused calls leave no trace
         sub = bool(prev) and prev[-1] != "ERESET" and prev[-1].split(" ")[4] == lab and lab != "B" and "EDIS" not in case.ops
         wire_ll = 0 if sub else lab_len(lab)
     must = (2 + wire_ll + len(pdu) <= 4095) and (4 + wire_ll + len(pdu) <= bl)
@@ -1007,7 +1018,7 @@ def gen_c02(rng, t):
         big = (i % 40 == 0)
         pl = rng.choice([rng.range(1, 60), rng.range(1, 60), rng.range(60, 700), near(rng, 4090, 4096, 8190, lo=1)]) if not big \
             else rng.choice([65535 - 2 - lab_len(lab), 65535 - 2 - lab_len(lab), 65534 - 2 - lab_len(lab), 65000, 20000])
-        slots = rng.choice([1, 2, 4])
+        slots = rng.choice([1, 2, 4, 1, 2, 4, 256])
         c.add("ENEW", "DNEW %d %d simple" % (slots, pl), "DPROV %d" % (pl + rng.range(0, 3)))
         fid = rng.below(256)
         if rng.chance(0.3):
